@@ -1,11 +1,11 @@
 CONSTANTS
   NWin = 2
-  Patterns <- PatsMixed
+  Patterns <- Pats4
   LtaChunks = 2
-  CompSets <- AllCompSets
+  CompSets <- CompSets2
   Limits <- Lims3
   MaxThr <- Thrs3
-  LtaHalf = FALSE
+  LtaHalf = TRUE
   Export = TRUE
 INIT Init
 NEXT Next
